@@ -449,6 +449,7 @@ func (r *Runner) Apply(k int, op OpSpec) {
 	r.C.Eval(class, nt)
 
 	// ---- direct oracle: the property statements on the implementation
+	r.oracleSound(s, k)
 	if r.Prop == "C02" || s.Pruning {
 		r.oracleC02(s, k, op, headBefore, hdrBefore)
 	}
@@ -544,6 +545,53 @@ func (r *Runner) replay(k int, extra map[string]interface{}) map[string]interfac
 		m[a] = b
 	}
 	return m
+}
+
+// oracleSound: the part of "number index, head pointers and lookups are mutually consistent" that holds after
+// EVERY operation of every session (full, header-only, mixed, pruning; SetHead, Rollback, header imports
+// included) - Coq: Chain/ChainAllOps.v sound_all_ops.  Records that are on disk are never wrong about
+// content: a height maps only to a block of that height, a hash->number record holds the block's number, a
+// stored TD is the sum of difficulties, a lookup entry names a block that contains the transaction at that
+// index, and the head pointers name delivered blocks.
+func (r *Runner) oracleSound(s *Session, k int) {
+	t := r.T
+	tag := fmt.Sprintf("%s/%s/op%d", r.Sc.Name, s.Name, k)
+	for n := uint64(0); n <= t.MaxNum+2; n++ {
+		h := core.GetCanonicalHash(s.DB, n)
+		if h == (common.Hash{}) {
+			continue
+		}
+		if x, ok := t.ByHash[h]; !ok || t.Num[x] != n {
+			r.C.Violate("index-entry-wrong-height/"+tag, "the number index maps a height to a block of another height (or to an unknown hash)", r.replay(k, map[string]interface{}{"height": n, "got": t.Ids.B(h)}))
+			break
+		}
+	}
+	for i, b := range t.Blocks {
+		if n := core.GetBlockNumber(s.DB, b.Hash()); n != ^uint64(0) && n != t.Num[i] {
+			r.C.Violate("hash-number-record-wrong/"+tag, "the hash->number record of a block holds another number", r.replay(k, map[string]interface{}{"node": i, "got": n}))
+			break
+		}
+		if td := core.GetTd(s.DB, b.Hash(), t.Num[i]); td != nil && td.Cmp(t.TrueTd[i]) != 0 {
+			r.C.Violate("td-additive/database/"+tag, "a stored total difficulty is not the sum of the difficulties of the block and its ancestors", r.replay(k, map[string]interface{}{"node": i, "td": td.String(), "want": t.TrueTd[i].String()}))
+			break
+		}
+	}
+	for ti, th := range t.AllTxs {
+		bh, num, idx := core.GetTxLookupEntry(s.DB, th)
+		if bh == (common.Hash{}) {
+			continue
+		}
+		x, ok := t.ByHash[bh]
+		if !ok || t.Num[x] != num || int(idx) >= len(t.TxsOf[x]) || t.TxsOf[x][idx] != th {
+			r.C.Violate("lookup-entry-wrong-content/"+tag, "a transaction lookup entry names a block / number / index that does not hold the transaction", r.replay(k, map[string]interface{}{"tx": ti + 1, "entry": t.Ids.B(bh), "number": num, "index": idx}))
+			break
+		}
+	}
+	for name, h := range map[string]common.Hash{"LastBlock": core.GetHeadBlockHash(s.DB), "LastHeader": core.GetHeadHeaderHash(s.DB), "LastFast": core.GetHeadFastBlockHash(s.DB)} {
+		if _, ok := t.ByHash[h]; h != (common.Hash{}) && !ok {
+			r.C.Violate("head-pointer-unknown-block/"+tag, "a head pointer names a hash that was never delivered: "+name, r.replay(k, nil))
+		}
+	}
 }
 
 // C02: td additive, head td monotone, head heaviest among fully validated delivered blocks.
